@@ -38,7 +38,7 @@ type replayCase struct {
 
 func main() {
 	kit.Main("C01", "exploration", func(r *kit.Run) {
-		r.Rule("complete products per family F1..F8 (F8: string tables large enough for 2- and 3-byte string ids; F9: element counts 63..8001 and id/coordinate magnitudes that cross varint and length boundaries) (see DESIGN.md C01; quick restricts F1's A x B square to B = A with one column flipped / info removed / keys_vals flipped / complement / full / empty) x decoder counts; a case is one (file, procs) scan; " +
+		r.Rule("complete products per family F1..F8 (F8: string tables large enough for 2- and 3-byte string ids; F9: element counts 63..8001 and id/coordinate magnitudes that cross varint and length boundaries; F10: every decoder count 1..34 on files of 0..8 blocks with and without header) (see DESIGN.md C01; quick restricts F1's A x B square to B = A with one column flipped / info removed / keys_vals flipped / complement / full / empty) x decoder counts; a case is one (file, procs) scan; " +
 			"non-trivial = file has >= 2 data blocks or at least one optional column/field/part absent; distinct = FNV of file bytes + procs")
 		r.Assume("gen/pbfgen's hand-written protobuf encoder and its expected-object computation follow osmformat.proto/fileformat.proto")
 		r.Assume("zlib blobs without raw_size, non-packed repeated fields and plain Node groups are outside the enumerated valid-file domain")
@@ -91,6 +91,15 @@ func main() {
 		genF7(add)
 		genF8(add)
 		genF9(add)
+		// F10: every decoder count 1..34 (channel capacities 10/n change at 2,3,4,6,11) on files of 0..8 blocks
+		if os.Getenv("C01_PROCS") == "" {
+			only = nil
+			for p := 1; p <= 34; p++ {
+				only = append(only, p)
+			}
+			genF10(add)
+			only = nil
+		}
 		r.Set("family_counts", fams)
 		r.ParIsolated(len(cases), func(i int) { runCase(r, &cases[i]) }, func(i int, what, detail string) {
 			c := &cases[i]
@@ -571,5 +580,32 @@ func genF9(add func(tcase)) {
 			{Groups: []pbfgen.Group{{Ways: []pbfgen.Way{w2, w}}, {Dense: d}}, Enc: pbfgen.Enc{Raw: true}},
 		}}
 		add(tcase{Family: "F9", Desc: fmt.Sprintf("%d dense nodes / way refs / members per element, large and negative ids", n), File: f, NonTrivial: true})
+	}
+}
+
+// ---- F10: decoder-count sweep ----
+
+func genF10(add func(tcase)) {
+	for nb := 0; nb <= 8; nb++ {
+		var blocks []pbfgen.Block
+		for i := 0; i < nb; i++ {
+			g := mixedGroups(int64(100*(i+1)), i%2 == 0)
+			b := pbfgen.Block{Groups: []pbfgen.Group{g[i%3]}}
+			if i%4 == 3 {
+				b.Groups = nil // an empty block in the rotation
+			}
+			b.Enc = pbfgen.Enc{Raw: i%3 == 1}
+			blocks = append(blocks, b)
+		}
+		for _, hdr := range []bool{true, false} {
+			if !hdr && nb == 0 {
+				continue
+			}
+			f := &pbfgen.File{Blocks: blocks}
+			if hdr {
+				f.Header = pbfgen.StdHeader()
+			}
+			add(tcase{Family: "F10", Desc: fmt.Sprintf("%d blocks, header=%v", nb, hdr), File: f, NonTrivial: nb >= 2})
+		}
 	}
 }
